@@ -404,6 +404,14 @@ def rule_SQ5(ctx, tier, which=None):
                         continue
                     counts = {str(x[1]) for x in og.walk(l) if isinstance(x, tuple) and x and x[0] == "const" and "COUNT" in str(x[1]).upper()}
                     both = any("pending_appointments" in x for x in counts) and any("invalid_appointments" in x for x in counts)
+                    # ... and the two counts are added
+                    summed = False
+                    for x in og.walk(l):
+                        if isinstance(x, tuple) and len(x) == 4 and x[0] == "bin" and x[1] in ("Add", "AddWithOverflow", "AddUnchecked"):
+                            cs = [{str(y[1]) for y in og.walk(side) if isinstance(y, tuple) and y and y[0] == "const" and "COUNT" in str(y[1]).upper()} for side in (x[2], x[3])]
+                            if all(cs) and cs[0] != cs[1]:
+                                summed = True
+                    both = both and summed
                     kv = str(k[1])
                     if both and ((op in ("Eq", "Le") and kv == "1") or (op == "Lt" and kv == "2")):
                         ok = True
@@ -421,3 +429,134 @@ def rule_SQ5_tower(ctx, tier):
 
 def rule_SQ5_client(ctx, tier):
     return rule_SQ5(ctx, tier, "client")
+
+
+# ------------------------------------------------------------------------------------------------------------------
+# SQ6: a statement read with query_row (first row wins, the rest is silently dropped) identifies one row
+def _single_row(stmt, sch):
+    """-> (True, why) if the SELECT can return at most one row given the primary keys in `sch`, else (False, table, missing)"""
+    import re
+    s = sql.norm(stmt)
+    # scalar sub-selects constrain a column like a parameter does; blank them out (innermost first)
+    u = s.upper()
+    sel = re.match(r"SELECT (.*?) FROM ", s, re.I)
+    if sel and re.match(r"\s*(COUNT|MAX|MIN|SUM|AVG|TOTAL)\s*\(", sel.group(1), re.I) and "GROUP BY" not in u:
+        return True, "aggregate without GROUP BY"
+    prev = None
+    while prev != s:
+        prev = s
+        s = re.sub(r"\(\s*\?\d*\s*\)", "?", s)
+        s = re.sub(r"\b(?:MAX|MIN|COUNT|SUM|LENGTH|AVG|TOTAL)\s*\([^()]*\)", "agg", s, flags=re.I)
+        s = re.sub(r"\(\s*SELECT [^()]*\)", "?", s, flags=re.I)
+    u = s.upper()
+    if re.search(r"\bLIMIT 1\b", u):
+        return True, "LIMIT 1"
+    m = re.search(r" FROM (.*?)(?: WHERE (.*))?$", s, re.I)
+    if not m:
+        return True, "no FROM"
+    frm, where = m.group(1), m.group(2) or ""
+    where = re.split(r"\b(?:ORDER BY|GROUP BY|LIMIT)\b", where, flags=re.I)[0]
+    alias = {}
+    conds = [where]
+    # FROM a [AS x] {, b [AS y]} {[LEFT|INNER] JOIN c [AS z] (ON cond | USING (cols))}
+    parts = re.split(r"\b(?:LEFT OUTER|LEFT|INNER|CROSS)?\s*JOIN\b", frm, flags=re.I)
+    tabs = []
+    for i, p in enumerate(parts):
+        p = p.strip()
+        on = ""
+        mm = re.search(r"\bON\b(.*)$", p, re.I)
+        using = re.search(r"\bUSING\s*\(([^)]*)\)", p, re.I)
+        if mm:
+            on, p = mm.group(1), p[:mm.start()]
+        if using:
+            p = p[:using.start()]
+        for item in p.split(","):
+            w = item.split()
+            if not w:
+                continue
+            t = w[0]
+            a = w[2] if len(w) >= 3 and w[1].upper() == "AS" else (w[1] if len(w) == 2 else t)
+            alias[a] = t
+            tabs.append(a)
+        if on:
+            conds.append(on)
+        if using and len(tabs) >= 2:
+            for c in using.group(1).split(","):
+                conds.append("%s.%s = %s.%s" % (tabs[-2], c.strip(), tabs[-1], c.strip()))
+    # equalities -> union-find over (alias, col); a class is fixed when it is equated to a parameter / literal
+    parent, fixed = {}, set()
+
+    def find(x):
+        parent.setdefault(x, x)
+        while parent[x] != x:
+            parent[x] = parent[parent[x]]
+            x = parent[x]
+        return x
+
+    def col(tok):
+        tok = tok.strip().strip("()")
+        mm = re.match(r"^(\w+)\.(\w+)$", tok)
+        if mm and mm.group(1) in alias:
+            return (mm.group(1), mm.group(2).lower())
+        if re.match(r"^[A-Za-z_]\w*$", tok):
+            owners = [a for a in tabs if tok.lower() in [c.lower() for c in (sch.get(alias[a]) or {}).get("columns", [])]]
+            if len(owners) == 1:
+                return (owners[0], tok.lower())
+        return None
+    for cond in conds:
+        if re.search(r"\bOR\b", cond, re.I):
+            continue  # a disjunction fixes nothing
+        for eq in re.split(r"\bAND\b", cond, flags=re.I):
+            mm = re.match(r"^\s*(.+?)\s*=\s*(.+?)\s*$", eq)
+            if not mm or re.search(r"[<>!]", eq):
+                continue
+            l, r = col(mm.group(1)), col(mm.group(2))
+            if l and r:
+                parent[find(l)] = find(r)
+            elif l or r:
+                other = (mm.group(2) if l else mm.group(1)).strip().strip("()")
+                if re.match(r"^(\?\d*|\d+|'[^']*'|:\w+)$", other):
+                    fixed.add(find(l or r))
+    fixed = {find(x) for x in fixed}
+    for a in tabs:
+        pk = [c.lower() for c in (sch.get(alias[a]) or {}).get("pk", [])]
+        if not pk:
+            return False, alias[a], ["<no primary key known>"]
+        miss = [c for c in pk if find((a, c)) not in fixed]
+        if miss:
+            return False, alias[a], miss
+    return True, "every table's primary key is fixed by the WHERE / join equalities"
+
+
+def rule_SQ6(ctx, tier):
+    rr = RuleResult("SQ6", "single-row reads: every SELECT consumed with query_row identifies at most one row (full primary key of every table fixed, or an aggregate)")
+    P = ctx.prog
+    from .rulekit import arg_origin
+    n = 0
+    for side, prefix, path in (("tower", TDBM, "teos::dbm::TABLES"), ("client", PDBM, "watchtower_plugin::dbm::TABLES")):
+        sch = schema(ctx, path)
+        if not sch:
+            rr.anchor_missing(path)
+            continue
+        sch = dict(sch)
+        sch.setdefault("sqlite_sequence", {"columns": ["name", "seq"], "pk": ["name"]})
+        for bid, b in sorted(P.bodies.items()):
+            if not bid.startswith(prefix) or "::tests" in bid:
+                continue
+            for bb, t in b.calls():
+                if (call_target(t) or "").split("::")[-1] != "query_row":
+                    continue
+                a0 = arg_origin(ctx, b, bb, 0)
+                stmts = sorted({sql.norm(str(x[1])) for x in og.walk(a0) if isinstance(x, tuple) and x and x[0] == "const" and isinstance(x[1], str) and x[1].lstrip().upper().startswith("SELECT")})
+                if not stmts:
+                    # dynamic SQL: nothing to judge here (built strings are owned by SQ4's query-scope clauses)
+                    continue
+                for st in stmts:
+                    n += 1
+                    r = _single_row(st, sch)
+                    if r[0]:
+                        rr.ok("%s: %s" % (shortfn(bid), r[1]), sample={"rule": "SQ6", "function": shortfn(bid), "statement": st[:120], "why unique": r[1]})
+                    else:
+                        rr.fail("query_row-not-unique:%s:%s" % (shortfn(bid), r[1]), "%s DBM: `%s` reads `%s` with query_row, but the statement does not fix %s of table `%s`'s primary key: with several matching rows the first one wins silently (rows of other towers / users sharing the fixed part)" % (side, shortfn(bid), st[:110], r[2], r[1]), where=b.line_of(bb))
+    rr.require_floor(12, "query_row statements")  # 17 on the reference tree; merging two reads into one correct join is fine
+    return rr
